@@ -76,7 +76,7 @@ class Check:
     def finish(self, floor, extra_cov=None, seed=0):
         known = load_known(self.pid)
         total = len(self.obligations)
-        if total < floor:
+        if total < floor and not any((not o["ok"]) and o["key"] not in known for o in self.obligations):
             raise AnalysisError(f"{self.pid}: only {total} rule instances were found, floor is {floor} "
                                 f"(a rule matching nothing must not pass vacuously)")
         bad = [o for o in self.obligations if not o["ok"]]
